@@ -2,6 +2,8 @@
 //! hooks on) on generated cases and writes (a) Coq case files evaluated against the Gallina model
 //! and (b) a JSON-lines file for the exact-rational oracles.
 mod util;
+mod c15;
+mod c14;
 mod c07;
 mod c06;
 mod gen;
@@ -26,6 +28,8 @@ fn main() {
                 "C06" => c06::run(seed, n, out, false),
                 "C04" => loops::run_c04(seed, n, out),
                 "C16" => c06::run(seed, n, out, true),
+                "C14" => c14::run(seed, n, out),
+                "C15" => c15::run(seed, n, out),
                 _ => { eprintln!("unknown property {}", prop); std::process::exit(2) }
             }
         }
@@ -33,6 +37,8 @@ fn main() {
             "C07" => c07::replay(&args[3..]),
             "C06" | "C16" => c06::replay(&args[3..]),
             "C04" => loops::replay_c04(&args[3..]),
+            "C14" => c14::replay(&args[3..]),
+            "C15" => c15::replay(&args[3..]),
             _ => { eprintln!("unknown property"); std::process::exit(2) }
         },
         _ => std::process::exit(2),
